@@ -646,6 +646,23 @@ static bool has_blank_last_cell(const std::string &doc, char delim) {
   }
   return false;
 }
+// C12-F3: the delimiter is a space or a TAB and some cell that is FOLLOWED BY THE DELIMITER holds nothing but white
+// space (two adjacent delimiters, a line that starts with the delimiter, a cell of other white space): strtof / strtoll
+// skip the delimiter as leading white space and convert the next cell, the empty cell is not numbered
+static bool has_blank_cell_before_ws_delim(const std::string &doc, char delim) {
+  if (delim != ' ' && delim != '\t') return false;
+  for (auto &l : eol_split(doc)) {
+    size_t i = 0;
+    while (i < l.size()) {                       // i = start of a cell
+      size_t k = i;
+      while (k < l.size() && l[k] != delim && isspace(static_cast<unsigned char>(l[k]))) ++k;
+      if (k < l.size() && l[k] == delim) return true;
+      while (k < l.size() && l[k] != delim) ++k;
+      i = k + 1;
+    }
+  }
+  return false;
+}
 // an integer cell spelled with a leading zero (octal / hex prefix under strtoll base 0)
 static bool has_leading_zero_cell(const std::string &doc) {
   for (size_t i = 0; i + 1 < doc.size(); ++i)
@@ -658,6 +675,7 @@ static std::string classify(const Fmt &f, const std::string &doc) {
   if (f.kind == "csv") {
     if (f.dt != "f32" && has_leading_zero_cell(doc)) return "csv-int-base0";
     if (doc.size() >= 3 && doc.compare(doc.size() - 3, 3, "\xEF\xBB\xBF") == 0) return "csv-bom-last-bytes-of-block";
+    if (has_blank_cell_before_ws_delim(doc, static_cast<char>(f.delim))) return "csv-blank-delim-empty-cell";
     if (has_blank_last_cell(doc, static_cast<char>(f.delim))) return "csv-blank-cell-reads-next-line";
     return "none";
   }
@@ -1099,8 +1117,9 @@ static void gen_csv_case(Gen &G, int level) {
       if (k) line.push_back(delim);
       bool special = static_cast<int>(k) == label_col || static_cast<int>(k) == weight_col;
       // an empty cell: absent entry (feature columns only; never the last cell of a line unless followed by blanks)
-      // (not with a white-space delimiter: the conversions skip leading white space, so such a file has no empty cells)
-      bool empty = !special && k + 1 < ncol && delim != ' ' && delim != '\t' && r.chance(1, 6);
+      // (with a white-space delimiter too: since fixes/C12-3.diff the parser itself recognises the empty cell, C12-F3;
+      // a white-space delimiter is never combined with blanks around the cells, see `blanks`)
+      bool empty = !special && k + 1 < ncol && r.chance(1, 6);
       if (empty) { ++idx; continue; }
       std::string cell, tag;
       if (dt == "f32") {
@@ -1298,8 +1317,33 @@ static void corpus(Gen &G) {
       {"csv:32:f32:0:1:44", "1,0.5,3,,5\n2,0.25,,4,\n"},
       {"csv:32:f32:-1:-1:44", "0,,,3\n4,5,6,7\n8,9,10,11\n"},
       {"csv:32:f32:-1:-1:44", "1,2\r\n3,4\r5,6\n\n\n7,8"},
+      {"csv:32:f32:0:-1:9", "1\t\t3\t4\n5\t6\t7\t\n"},  // C12-F3: empty cells with a white-space delimiter (TAB, space)
+      {"csv:32:f32:-1:-1:32", "1  3 \n4 5 6 7\n"},
   };
   for (auto &d : docs) run_token_doc(G, "corpus", d.fmt, d.doc, 3, true);
+}
+
+// corpus documents together with the table they render (C12 oracle: `row` ops with the expected row of each line)
+static void corpus_tables(Gen &G) {
+  auto e = [](const char *t) { return num_tag(Lex{t, true}); };
+  struct Line { std::string text, exp; };
+  struct { const char *fmt; std::vector<Line> lines; } docs[] = {
+      // C12-F3: an empty cell is absent but numbered, with a white-space delimiter too
+      {"csv:32:f32:0:-1:9", {{"1\t\t3\t4\n", e("1") + " ~ ~ ~ 1,2 " + e("3") + "," + e("4")},
+                             {"5\t6\t7\t\n", e("5") + " ~ ~ ~ 0,1 " + e("6") + "," + e("7")}}},
+      {"csv:32:f32:-1:-1:32", {{"1  3 \n", "~ ~ ~ ~ 0,2 " + e("1") + "," + e("3")},
+                               {"4 5 6 7\n", "~ ~ ~ ~ 0,1,2,3 " + e("4") + "," + e("5") + "," + e("6") + "," + e("7")}}},
+      {"csv:32:i32:1:-1:9", {{"\t7\t\t9\n", "e7 ~ ~ ~ 2 e9"}}},
+      {"csv:32:f32:0:1:44", {{"1,0.5,3,,5\n", e("1") + " " + e("0.5") + " ~ ~ 0,2 " + e("3") + "," + e("5")}}},
+  };
+  for (auto &d : docs) {
+    Case c;
+    c.kind = std::string("corpus-table ") + d.fmt;
+    std::string doc;
+    for (auto &l : d.lines) { c.ops.push_back("row " + vh::hex(l.text) + " " + l.exp); doc += l.text; }
+    G.battery(&c, d.fmt, doc, 3);
+    G.R->run_case(c);
+  }
 }
 
 int main(int argc, char **argv) {
@@ -1318,6 +1362,7 @@ int main(int argc, char **argv) {
   Gen G{&R, &rng, !R.thorough()};
   corpus(G);
   if (H.prop == "C12") {
+    corpus_tables(G);
     size_t n = R.thorough() ? 6000 : 500;
     for (size_t i = 0; i < n; ++i) {
       int level = i % 4 == 0 ? 3 : 2;
